@@ -192,6 +192,10 @@ fn extra_line(rng: &mut Rng, h: &[Op], p: usize) -> (Vec<u8>, &'static str, Vec<
     }
 }
 
+thread_local! {
+    static NOT_IN_CLASS_NONE: std::cell::Cell<u32> = const { std::cell::Cell::new(0) };
+}
+
 /// how often the concurrent scenario is repeated natively (real OS threads: the kernel decides
 /// the interleaving there, so one round proves little); raised for minimisation and replay.
 /// Under Miri one round: Miri's seeded scheduler decides every preemption, and its race
@@ -484,7 +488,12 @@ impl Prop for C17 {
         if v.is_some() {
             return v;
         }
+        NOT_IN_CLASS_NONE.with(|c| c.set(0));
         let v = judge_on(sc, Build::None, &mut None);
+        if let Some(st) = st.as_deref_mut() {
+            // (counted, so that the evidence shows how often the no-alloc build was left out)
+            st.probe_if(NOT_IN_CLASS_NONE.with(|c| c.get()) > 0, "no-alloc build not judged: it does not put the extra line in the class (it accepts it)");
+        }
         if v.is_some() {
             return v;
         }
@@ -542,6 +551,7 @@ fn judge_on(sc: &Scenario, build: Build, st: &mut Option<&mut Stats>) -> Option<
                     _ => false,
                 };
                 if !in_class {
+                    NOT_IN_CLASS_NONE.with(|c| c.set(c.get() + 1));
                     return None;
                 }
             }
